@@ -87,7 +87,7 @@ BOUNDS = {
         "derived_screens": "arity1 rows<=3 over L6 (names 'x', 'x ' (trailing blank), 'ctl' x doses 0,1) and arity2 2 rows over L4, sample names "
                            "over 's','s ',' s', two plates: the screens that save/load, mask, unmask, both hold-out splits (fractions 0.5 and 1), "
                            "reveal, sub-view to_screen and combine return are judged like constructed ones, against their own names and their own control name",
-        "merge_histories": "3 plate layouts (3-4 plates, interleaved rows): every sequence of <= 2 merges (<= 3 for 3 plates) of ordered plate pairs, with fresh and with stale plate handles",
+        "merge_histories": "3 plate layouts (3-4 plates, interleaved rows): every sequence of <= 2 merges (<= 3 for 3 plates) of ordered plate pairs, with fresh and with stale plate handles; sequences of <= 2 merges also with one / two plates already observed (a refused merge leaves a consistent screen)",
     },
     "thorough": {
         "screens_no_mapping": [
@@ -497,7 +497,13 @@ def run_merge_case(case, col, verbose=False):
     pn = MERGE_LAYOUTS[case["layout"]]
     n = len(pn)
     spec = {"tn": [["a", "b"] for _ in range(n)], "td": [[1.0, 1.0 + (i % 2)] for i in range(n)], "sn": [f"s{i % 2}" for i in range(n)], "pn": pn}
-    s = build(spec, "")
+    observed = set(case.get("observed") or [])
+    if observed:
+        # some plates are already observed: a merge of an observed with an unobserved plate may be carried out or refused - either
+        # way the screen is used afterwards, and its plate ids are dense and equal exactly for equal names
+        s = build(spec, "", observations=np.array([0.1 * (i + 1) for i in range(n)]), observation_mask=np.array([x in observed for x in pn], dtype=bool))
+    else:
+        s = build(spec, "")
     handles = {str(p.plate_name): p for p in s.plates} if case["stale_handles"] else None
     col.evaluations += 1
     col.transitions += len(case["merges"])
@@ -517,7 +523,9 @@ def run_merge_case(case, col, verbose=False):
                 raise
             col.refused += 1
             col.outcome("merge", "refused", type(exc).__name__)
-            return
+            if not observed:
+                return
+            # (refused: the screen goes on being used - judged below like after a merge that was carried out)
         names = [str(x) for x in np.asarray(s.plate_names)]
         ids = [int(x) for x in np.asarray(s.plate_ids)]
         if verbose:
@@ -688,6 +696,12 @@ def run_merge_item(item, col):
         for stale in (False, True):
             col.states += 1
             run_merge_case({"kind": "merge", "layout": item["layout"], "merges": [list(x) for x in seq], "stale_handles": stale}, col)
+    # ... and with one or two plates already observed (sequences of <= 2 merges, fresh handles)
+    for obs in ([names[0]], [names[-1]], names[:2]):
+        for seq in seqs:
+            if len(seq) <= 2:
+                col.states += 1
+                run_merge_case({"kind": "merge", "layout": item["layout"], "merges": [list(x) for x in seq], "stale_handles": False, "observed": obs}, col)
 
 
 def run_case(case, col, verbose=False):
